@@ -22,6 +22,9 @@ Theorems (over Model/ListOffsets.lean and Model/Seek.lean):
     mapping_exact_consumerOffsets  partition → committed offset of the coordinator
     mapping_exact_metadata         leader / replicas / ISR of every partition resolve to the listed brokers; order and fields kept
     mapping_exact_readPartitions   same for Conn.ReadPartitions (placeholder brokers for unlisted ids)
+    readPartitions_error_scope / readPartitionsTopics_spec   ReadPartitions: which topics are asked for; a topic error ends the call only when it
+                          concerns the connection, otherwise every partition of every answered topic is reported
+    readOffsets_exact     ReadOffsets: both offsets iff both requests succeeded; no value leaks on error
     mapping_exact_listOffsets_step one merged entry updates its own partition's record only, in the field its timestamp selects
     clientStep_other / clientApply_untouched / clientApply_total   the whole fold: partitions the response does not mention keep their
                           record, no record is lost, and no nil-map panic when every entry concerns a requested partition
@@ -553,6 +556,82 @@ theorem clientApply_total (es : List (String × ResPart)) (m : List ((String × 
       · rw [(clientStep_other m _ e hr').1 _ hke]; exact h x (List.mem_cons_of_mem _ hx)
     obtain ⟨m', hm'⟩ := ih _ hk
     exact ⟨m', by simp only [List.foldlM_cons, bind, Option.bind, hr', hm']⟩
+
+open KV.Seek in
+/-- **ReadOffsets**: both offsets are reported iff both list-offset requests succeeded; otherwise the first error
+in request order is returned and no offset at all (the first value is not leaked) -/
+theorem readOffsets_exact (first last : Except Int Int) :
+    (∀ f l, readOffsets first last = .ok (f, l) ↔ first = .ok f ∧ last = .ok l) ∧
+    (∀ e, first = .error e → readOffsets first last = .error e) ∧
+    (∀ f e, first = .ok f → last = .error e → readOffsets first last = .error e) := by
+  refine ⟨?_, ?_, ?_⟩
+  · intro f l
+    cases first <;> cases last <;> simp [readOffsets]
+  · intro e h; subst h; rfl
+  · intro f e h1 h2; subst h1; subst h2; rfl
+
+theorem readPartitions_fold_ok (bm : List (Int × UBroker)) (connTopic : String) (ts : List MTopic) (acc : List UPartition)
+    (hall : ts.all (fun t => !concerns connTopic t) = true) :
+    ∃ ps, ts.foldlM (fun acc t =>
+        if concerns connTopic t then Except.error t.error
+        else Except.ok (acc ++ t.partitions.map (convPartition bm t))) acc = .ok ps ∧
+      ps.map (fun p => (p.topic, p.id)) = acc.map (fun p => (p.topic, p.id)) ++
+        ts.flatMap (fun t => t.partitions.map fun p => (t.name, p.index)) := by
+  induction ts generalizing acc with
+  | nil => exact ⟨acc, rfl, by simp⟩
+  | cons t ts ih =>
+    simp only [List.all_cons, Bool.and_eq_true, Bool.not_eq_eq_eq_not, Bool.not_true] at hall
+    obtain ⟨ps, h1, h2⟩ := ih (acc ++ t.partitions.map (convPartition bm t)) hall.2
+    refine ⟨ps, ?_, ?_⟩
+    · simp only [List.foldlM_cons, hall.1, Bool.false_eq_true, ↓reduceIte, bind, Except.bind]
+      exact h1
+    · rw [h2]
+      simp [List.map_append, List.map_map, Function.comp, List.flatMap_cons, convPartition]
+
+theorem readPartitions_fold_err (bm : List (Int × UBroker)) (connTopic : String) (pre : List MTopic) (t : MTopic)
+    (post : List MTopic) (acc : List UPartition)
+    (hpre : pre.all (fun t => !concerns connTopic t) = true) (hc : concerns connTopic t = true) :
+    (pre ++ t :: post).foldlM (fun acc t =>
+        if concerns connTopic t then Except.error t.error
+        else Except.ok (acc ++ t.partitions.map (convPartition bm t))) acc = .error t.error := by
+  induction pre generalizing acc with
+  | nil => simp [List.foldlM_cons, hc, bind, Except.bind]
+  | cons x xs ih =>
+    simp only [List.all_cons, Bool.and_eq_true, Bool.not_eq_eq_eq_not, Bool.not_true] at hpre
+    simp only [List.cons_append, List.foldlM_cons, hpre.1, Bool.false_eq_true, ↓reduceIte, bind, Except.bind]
+    exact ih _ hpre.2
+
+/-- **ReadPartitions, error scope**: when no answered topic carries an error that concerns the connection, every
+partition of every answered topic is reported, in order (errors of other topics hide nothing); otherwise the first
+such error is returned. -/
+theorem readPartitions_error_scope (connTopic : String) (res : MResponse) :
+    (res.topics.all (fun t => !concerns connTopic t) = true →
+      ∃ ps, readPartitions connTopic res = .ok ps ∧
+        ps.map (fun p => (p.topic, p.id)) = res.topics.flatMap (fun t => t.partitions.map fun p => (t.name, p.index))) ∧
+    (∀ pre t post, res.topics = pre ++ t :: post → pre.all (fun t => !concerns connTopic t) = true →
+      concerns connTopic t = true → readPartitions connTopic res = .error t.error) := by
+  constructor
+  · intro hall
+    obtain ⟨ps, h1, h2⟩ := readPartitions_fold_ok (brokerMap res.brokers) connTopic res.topics [] hall
+    exact ⟨ps, h1, by simpa using h2⟩
+  · intro pre t post hsplit hpre hc
+    simp only [readPartitions, hsplit]
+    exact readPartitions_fold_err _ connTopic pre t post [] hpre hc
+
+/-- which topics ReadPartitions asks for -/
+theorem readPartitionsTopics_spec (connTopic : String) (args : List String) :
+    (args ≠ [] → readPartitionsTopics connTopic args = some args) ∧
+    (connTopic ≠ "" → readPartitionsTopics connTopic [] = some [connTopic]) ∧
+    readPartitionsTopics "" [] = none := by
+  refine ⟨?_, ?_, rfl⟩
+  · intro h
+    cases args with
+    | nil => exact absurd rfl h
+    | cons a as => simp [readPartitionsTopics]
+  · intro h
+    have : connTopic.length ≠ 0 := by
+      intro h0; exact h (String.length_eq_zero_iff.mp h0)
+    simp [readPartitionsTopics, this]
 
 end mappings
 
